@@ -8,7 +8,7 @@
    ELeftover / ESaveWrite event (ws_n = Some k with or without error; ws_kill = 1..4), the restart
    is ERestart.  [spill_run] builds the canonical one used by the example theorems; the theorems of
    Props/C04.v are stated for ALL runs. *)
-From SV Require Import Model.Common Model.FileWrite Model.Buffer.
+From SV Require Import Model.Common Model.FileWrite Model.Buffer Model.ConcWrite.
 
 (* a short write of k bytes that reports no error (RLIMIT_FSIZE = k >= 1, disk full half way) *)
 Definition ws_short (k : nat) : wscript :=
@@ -52,7 +52,9 @@ End Scenario.
    kind 1: one call of util.WriteFileAt.  sargs: name, data, previous content.
            zargs: write script, what is under the name before (0 nothing, 1 file, 2 directory),
            what is under name.tmp before (0 nothing, 1 file "x", 2 directory).
-           Output "w:<ok|err|died>;dir=<entries>". *)
+           Output "w:<ok|err|died>;dir=<entries>".
+   kind 2: several goroutines call UnloadChunk on one directory at once; kind 3: shutdown, the consumer's
+           leftovers against the feeder's saveQueued (Model/ConcWrite.v, run_conc). *)
 Definition show_wres (r : wres) : bytes :=
   match r with
   | WOk => str_ok
@@ -73,4 +75,8 @@ Definition run_case_C04 (c : case) : bytes :=
               else if (zarg c 2 =? 2)%Z then dir_set d1 (tmp_name n) EDir else d1 in
     let (d3, r) := write_file_at (decode_ws (zarg c 0)) d2 n data in
     [119] ++ colon :: show_wres r ++ semicolon :: [100; 105; 114; 61] ++ join comma (map show_entry d3)
+  else if (c_kind c =? 2)%N then
+    if conc_case_ok true (c_sargs c) (c_zargs c) then run_conc true (c_sargs c) (c_zargs c) else bad_case_output
+  else if (c_kind c =? 3)%N then
+    if conc_case_ok false (c_sargs c) (c_zargs c) then run_conc false (c_sargs c) (c_zargs c) else bad_case_output
   else bad_case_output.
